@@ -325,6 +325,9 @@ type hydra struct {
 	// a swampot, különben képesek lennének egyszerre létrehozni, ugyanazt a swampot. Így ha az egyik summonolja a swampot,
 	// akkor meg kell várja a másik, hogy az első visszakapja azt.
 	summoningSwamps sync.Map
+	// summoningMu makes "look up the wait-slot and register as its user" and
+	// "deregister and drop the slot when unused" atomic with respect to each other.
+	summoningMu sync.Mutex
 
 	// interfaces
 	elysiumInterface  safeops.Safeops
@@ -370,7 +373,7 @@ func (h *hydra) GetLocker() lock.Lock {
 type SwampWaiter struct {
 	cond  *sync.Cond
 	ready bool
-	count int32 // store the number of waiting goroutines
+	count int32 // number of summoners that currently use this slot (holder and waiters); guarded by hydra.summoningMu
 }
 
 func newSwampWaiter() *SwampWaiter {
@@ -393,8 +396,22 @@ func (h *hydra) SummonSwamp(ctx context.Context, islandID uint64, swampName name
 	// if the ok is true then the swamp is already summoning, so we need to wait for the other process to finish the summoning process
 	// if the ok is false then the swamp is not summoning, so we can start the summoning process and store the swamp in the map
 	// immediately
+	h.summoningMu.Lock()
 	result, _ := h.summoningSwamps.LoadOrStore(swampName.Get(), newSwampWaiter())
 	waiter, _ := result.(*SwampWaiter)
+	waiter.count++
+	h.summoningMu.Unlock()
+
+	// releaseWaiter deregisters this summoner; the slot is dropped only when nobody uses it any more,
+	// so a summoner that arrives while another one still owns or waits for the slot always gets the same slot.
+	releaseWaiter := func() {
+		h.summoningMu.Lock()
+		waiter.count--
+		if waiter.count == 0 {
+			h.summoningSwamps.Delete(swampName.Get())
+		}
+		h.summoningMu.Unlock()
+	}
 	verifhook.Point("hydra.summon.gotWaiter")
 
 	// lezárjuk a következő kódrészt, így csak egyetlen rutin futhatja egyszerre egy domain néven belül
@@ -405,9 +422,9 @@ func (h *hydra) SummonSwamp(ctx context.Context, islandID uint64, swampName name
 			// Ha a kontextus megszakad, jelezzük a többi várakozó goroutinnak, hogy ne várjanak tovább
 			waiter.cond.Broadcast()
 			waiter.cond.L.Unlock()
+			releaseWaiter()
 			return nil, ctx.Err() // Visszatérünk a kontextus hibaüzenetével
 		default:
-			atomic.AddInt32(&waiter.count, 1)
 			waiter.cond.Wait()
 		}
 	}
@@ -421,12 +438,8 @@ func (h *hydra) SummonSwamp(ctx context.Context, islandID uint64, swampName name
 		waiter.ready = false
 		waiter.cond.Broadcast() // Értesítjük a többi várakozót
 		waiter.cond.L.Unlock()
-		// csökkentjük a várakozó goroutinok számát
-		atomic.AddInt32(&waiter.count, -1)
-		// ha nincs több várakozó goroutin, akkor töröljük a várakozó mapből a swampot
-		if atomic.LoadInt32(&waiter.count) == 0 {
-			h.summoningSwamps.Delete(swampName.Get())
-		}
+		// ha nincs több goroutin, ami ezt a slotot használja, akkor töröljük a várakozó mapből a swampot
+		releaseWaiter()
 	}()
 
 	var swampObject swamp.Swamp
